@@ -986,3 +986,48 @@ def rule_simple_block(ctx, prop):
                           f"statements of the block vanish from the output", f.loc(), cfg)
         rep.floor("yes-paths of is_block_simple", n, 2, cfg)
     return rep
+
+
+LENGTH_CHANGING = re.compile(r"Iterator::(flatten|filter|filter_map|flat_map|skip|skip_while|take|take_while|step_by|dedup|chain|zip|"
+                             r"rev|peekable|scan|map_while|fuse|cycle|last|nth)$|::(retain|dedup|truncate|remove|drain|sort[a-z_]*|reverse)$")
+
+
+def rule_positional(ctx, prop):
+    """lists that are matched to the names of a `local` by position keep one slot per name, in order"""
+    rep = Report(prop, "R-ELEMENT(positional)", "the attribute / type-specifier lists handed to with_attributes / with_type_specifiers "
+                                                "derive from the statement's own list through order- and length-preserving steps only")
+    for cfg, prog in ctx.programs.items():
+        n = 0
+        for f in prog.fns("stylua_lib"):
+            for b, t in f.calls():
+                m = re.search(r"LocalAssignment::with_(attributes|type_specifiers)$", callee(t))
+                if not m or len(t["args"]) < 2:
+                    continue
+                n += 1
+                seen = set()
+                calls = []
+                work = [t["args"][1]]
+                while work and len(seen) < 60:
+                    o = work.pop()
+                    if is_const(o):
+                        continue
+                    for r in provenance(f, o, through=None):
+                        if r[0] == "call" and r[2] not in seen:
+                            seen.add(r[2])
+                            calls.append(r[1])
+                            ta = f.blocks[r[2]]["term"]["args"]
+                            if ta:
+                                work.append(ta[0])
+                bad = sorted({c.split("::")[-1] for c in calls if LENGTH_CHANGING.search(c)})
+                src_ok = any(c.endswith(f"LocalAssignment::{m.group(1)}") for c in calls)
+                ok = not bad
+                rep.inst(f"{f.key} with_{m.group(1)} keeps one slot per name", {"from_own_list": src_ok, "steps": sorted({c.split('::')[-1] for c in calls})[:8]},
+                         cfg, ok=ok)
+                if not ok:
+                    rep.violation(f"{f.key} positional-list-reshaped with_{m.group(1)} via={','.join(bad)}",
+                                  f"{f.path} builds the list for with_{m.group(1)} through {bad}: the list is matched to the names by "
+                                  f"position, so dropping or reordering slots moves an attribute / type to another variable "
+                                  f"(`local ok, h <close> = ..` becomes `local ok <close>, h = ..`)", f.loc(t["sp"]), cfg)
+        if "lua54" in cfg or cfg in ("luau", "release", "all"):
+            rep.floor("with_attributes / with_type_specifiers call sites", n, 1, cfg)
+    return rep
